@@ -182,11 +182,24 @@ impl Lexer {
                                 is_operator
                             })
                         {
-                            // (a bracket right after the operator opens an operand: `2+(2+2)`)
+                            // (a bracket right after the operator opens an operand: `2+(2+2)`; so does
+                            // one after a later operator of the same word, whose right operand is the
+                            // bracket or the next word: `1+2*(3)`, `1+2* 3`)
                             let bracket_follows = matches!(
                                 input_part.get(self.char_index as usize + 1),
                                 Some('(') | Some('{')
-                            );
+                            ) || {
+                                let n = rest.chars().count();
+                                n > 1
+                                    && n < 48
+                                    && rest.ends_with(|c: char| matches!(c, '+' | '-' | '*' | '/' | '%'))
+                                    && match input_part.get(self.char_index as usize + 1 + n) {
+                                        Some('(') | Some('{') => true,
+                                        Some(' ') => !self.after_operator,
+                                        _ => false,
+                                    }
+                                    && looks_like_expression(&rest[..rest.len() - 1])
+                            };
                             // (`size* 2`: the right operand is the next word; not right after a
                             // comparison, where `2018*` is a pattern)
                             let operand_in_next_word = rest.is_empty()
